@@ -19,7 +19,7 @@ C02-c no lossy narrowing into on-disk LBA/size fields: a conversion to a narrowe
 C02-d GetStart/GetSize multiply in 64 bits (shared with C13-a).
 C02-e sector-unit discipline: in partition/gpt and partition/mbr a value counted in sectors (an LBA field of the table or Start/End of a partition) is converted to or from bytes only with the table's own sector size, never with a literal 512/4096 (the property quantifies over both logical sector sizes).
 C02-f one disk identity: if the header encoder can draw a random GUID without keeping it, every function that encodes the header twice (primary and backup) fixes Table.GUID first.
-C02-g names: GPT names are UTF-16LE: the encoder produces its code units with the utf16 package and never converts a rune straight to uint16, and the decoder rebuilds runes with utf16.Decode/DecodeRune and never widens a single code unit to a rune.
+C02-g names: GPT names are UTF-16LE (36 code units in 72 bytes; the encoder's limit test counts the code units it writes, not runes): the encoder produces its code units with the utf16 package and never converts a rune straight to uint16, and the decoder rebuilds runes with utf16.Decode/DecodeRune and never widens a single code unit to a rune.
 Not covered: Start/End/Size reconciliation arithmetic, UTF-16 name handling beyond 'same bytes', the mixed-endian GUID permutation, geometry formulas.`)
 }
 
@@ -41,7 +41,8 @@ func runC02(w *World, r *Report) {
 	c02Identity(w, r)
 	c02Names(w, r)
 	r.Floor("C02-f", r.countRule("C02-f"), 1)
-	r.Floor("C02-g", r.countRule("C02-g"), 2)
+	c02NameLimit(w, r)
+	r.Floor("C02-g", r.countRule("C02-g"), 3)
 	r.Floor("C02-a", r.countRule("C02-a"), 3)
 	r.Floor("C02-e", r.countRule("C02-e"), 10)
 	r.Floor("C02-b", r.countRule("C02-b"), 3)
@@ -424,4 +425,66 @@ func c02Names(w *World, r *Report) {
 	})
 	r.Check(decodes && widen == "", "C02-g", fnName(dec), "names are decoded with the UTF-16 decoder", w.relFile(dec.Pos()), "",
 		"GPT partition names are UTF-16LE, but the entry decoder does not turn its code units into runes with the utf16 package"+map[bool]string{true: " (a single code unit is widened to a rune at " + widen + ")", false: ""}[widen != ""]+": a surrogate pair is read back as two invalid characters instead of the rune that was written")
+}
+
+// c02NameLimit (C02-g, length): the 72 bytes of the name field hold 36 UTF-16 code units; the encoder's limit test must
+// count code units (len of the []uint16 it writes), not runes or bytes: a rune beyond U+FFFF takes two units.
+func c02NameLimit(w *World, r *Report) {
+	enc := w.Method(pGPT, "Partition", "toBytes")
+	n := 0
+	for _, b := range enc.Blocks {
+		iff, ok := lastInstr(b).(*ssa.If)
+		if !ok {
+			continue
+		}
+		bin, ok := iff.Cond.(*ssa.BinOp)
+		if !ok {
+			continue
+		}
+		for _, sides := range [][2]ssa.Value{{bin.X, bin.Y}, {bin.Y, bin.X}} {
+			lc, ok := stripConv(sides[0]).(*ssa.Call)
+			if !ok {
+				continue
+			}
+			bi, ok := lc.Call.Value.(*ssa.Builtin)
+			if !ok || bi.Name() != "len" {
+				continue
+			}
+			k, isC := constInt(sides[1])
+			if !isC || k < 30 || k > 80 {
+				continue
+			}
+			leadsErr := false
+			for idx := range b.Succs {
+				if blockLeadsToErrorReturn(b.Succs[idx], 0) {
+					leadsErr = true
+				}
+			}
+			if !leadsErr {
+				continue
+			}
+			// is it about the name?
+			aboutName := w.prov(lc.Call.Args[0], provOpts{throughExternal: true}).hasField("Partition", "Name")
+			if sl, ok := lc.Call.Args[0].Type().Underlying().(*types.Slice); ok {
+				if bt, ok := sl.Elem().Underlying().(*types.Basic); ok && (bt.Kind() == types.Uint16 || bt.Kind() == types.Int32) {
+					aboutName = true // the only code units / runes this encoder handles are the name's
+				}
+			}
+			if !aboutName {
+				continue
+			}
+			n++
+			units := false
+			if sl, ok := lc.Call.Args[0].Type().Underlying().(*types.Slice); ok {
+				if bt, ok := sl.Elem().Underlying().(*types.Basic); ok && bt.Kind() == types.Uint16 {
+					units = true
+				}
+			}
+			r.Check(units && k == 36, "C02-g", fnName(enc), "name limit counts UTF-16 code units", w.relFile(instrPos(iff)), "",
+				fmt.Sprintf("the encoder limits the partition name by len() of a %s (limit %d) instead of the 36 UTF-16 code units the 72-byte field holds: a name with runes beyond U+FFFF passes the test and the units written overrun the 128-byte entry (panic) or a legal 36-unit name is refused", lc.Call.Args[0].Type().String(), k))
+		}
+	}
+	if n == 0 {
+		r.Fail("C02-g", fnName(enc), "name limit counts UTF-16 code units", w.relFile(enc.Pos()), "the entry encoder does not limit the length of the partition name at all: more than 36 code units overrun the 128-byte entry")
+	}
 }
